@@ -354,13 +354,38 @@ def check_signal_table(ctx):
               ctor.name, 'signal-table:SIGCHLD', ctor.loc, 'SIGCHLD is blocked, has its own handler and is restored')
     # the pending check stores what it found
     for s, e in sorted(pending.items()):
-        ts = true_succ(hpi, e['_b'])
-        ok = False
-        if ts is not None:
+        # (a signal may be tested more than once: one of the tests records it, none records another one)
+        good = bad = 0
+        for t in hpi.calls('sigismember'):
+            if const_value((t.get('args') or [None, None])[1]) != s:
+                continue
+            ts = true_succ(hpi, t['_b'])
+            if ts is None:
+                continue
             st = [x for x in hpi.blocks[ts]['ev'] if x['k'] == 'asg' and is_field_name(x['l'], 'SubprocessSet::interrupted_')]
-            ok = len(st) == 1 and const_value(st[0].get('r')) == s
-        ctx.check('C07.S1', ok, hpi.name, 'pending:%s:stored-as-other' % INTERRUPT_SIGNALS.get(s, s), hpi.where(e),
+            good += sum(1 for x in st if const_value(x.get('r')) == s)
+            bad += sum(1 for x in st if const_value(x.get('r')) != s)
+        ctx.check('C07.S1', good >= 1 and bad == 0, hpi.name, 'pending:%s:stored-as-other' % INTERRUPT_SIGNALS.get(s, s), hpi.where(e),
                   'a pending %s is recorded as interrupted_ = %s' % (INTERRUPT_SIGNALS.get(s, s), s))
+    # a signal found pending is taken off the queue (sigwait family): otherwise it is delivered with its default disposition when
+    # the destructor unblocks it, and ninja dies from the signal after its clean-up instead of exiting with 130
+    waiters = {f.id for f in prog.functions.values() if any(e.get('name') in ('sigwait', 'sigwaitinfo', 'sigtimedwait') for e in f.events('call'))}
+    consumed = set()
+    for e in hpi.events('call'):
+        direct = e.get('name') in ('sigwait', 'sigwaitinfo', 'sigtimedwait')
+        via = bool(waiters & set(prog.reachable_fns(prog.call_targets(e)))) if not direct else False
+        if not (direct or via):
+            continue
+        for k, (pol, a) in hpi.facts_at(e).items():
+            sa = strip(a)
+            if pol and isinstance(sa, dict) and sa.get('k') == 'call' and sa.get('name') == 'sigismember':
+                v = const_value((sa.get('args') or [None, None])[1])
+                if isinstance(v, int):
+                    consumed.add(v)
+    for s_ in sorted(pending):
+        ctx.check('C07.S1', s_ in consumed, hpi.name, 'pending:%s:left-pending' % INTERRUPT_SIGNALS.get(s_, s_), hpi.where(pending[s_]),
+                  'a %s found pending is consumed (sigwait) so that it cannot kill ninja when the signals are unblocked at the end' %
+                  INTERRUPT_SIGNALS.get(s_, s_))
     # in the wait status each of the three leads to ExitInterrupted and nothing else does
     for s, (bid, i, succ) in sorted(exitsig.items()):
         r = pes.find_path(None, lambda x: x['k'] == 'ret' and not mentions_enum(x.get('e'), 'ExitInterrupted'), from_succ=succ)
@@ -385,7 +410,7 @@ def check_signal_table(ctx):
             # the mask given to the wait is the one saved when the signals were blocked
             ctx.check('C07.S1', any(mentions_field(a, 'SubprocessSet::old_mask_') for a in w.get('args') or []), f.name, 'DoWork:wait-mask', f.where(w),
                       'the wait runs with the signal mask saved by the constructor (signals are deliverable only there)')
-    ctx.floor('C07.S1', 30)
+    ctx.floor('C07.S1', 33)
 
 
 def is_field_name(d, name):
